@@ -186,6 +186,7 @@ static void vf_init(int argc, char **argv)
 		if (fd >= 0 && ftruncate(fd, 4096) == 0) {
 			VF.cur = mmap(NULL, 4096, PROT_READ | PROT_WRITE, MAP_SHARED, fd, 0);
 			if (VF.cur == MAP_FAILED) VF.cur = NULL;
+			else { long long none = -1; memcpy(VF.cur, &none, sizeof none); }
 		}
 		if (fd >= 0) close(fd);
 	}
